@@ -41,6 +41,7 @@ inductive Sub (cfg : Cfg) (P : Prog) (n : Nat) : Task × St → Task × St → P
   | emitArg t e σ : Sub cfg P n (.ev (.emit t (some e)), σ) (.ev e, σ)
   | throwArg e σ : Sub cfg P n (.ev (.throw e), σ) (.ev e, σ)
   | retArg e σ : Sub cfg P n (.ev (.ret e), σ) (.ev e, σ)
+  | breakValue e σ : Sub cfg P n (.ev (.brkV e), σ) (.ev e, σ)
   | mkListArgs es σ : Sub cfg P n (.ev (.mkList es), σ) (.evs es [], σ)
   | interpHoles t es σ : Sub cfg P n (.ev (.emitI t es), σ) (.evs es [], σ)
   | indexArgs l i σ : Sub cfg P n (.ev (.index l i), σ) (.evs [l, i] [], σ)
